@@ -490,15 +490,24 @@ func (cx *Ctx) c12Validators(r *Report) {
 		rtEntries := cx.entriesOfModule(m, "msg", "abci", "callback", "hook")
 		// run-time constants assigned to / constructed into T.F
 		type stored struct {
-			c   string
-			pos string
-			msg string // message field copied in (for non-constant values)
-			ev  *Event
-			w   *Walker
-			e   *Entry
+			c      string
+			pos    string
+			msg    string // message field copied in (for non-constant values)
+			zeroEv *Event
+			ev     *Event
+			w      *Walker
+			e      *Entry
 		}
 		values := map[string][]stored{}
+		updates := map[string][]*Event{} // entry|T.F -> field updates
 		cx.forEachEvent(rtEntries, nil, func(e *Entry, w *Walker, ev *Event) {
+			if strings.HasPrefix(ev.Kind, "assign:") || strings.HasPrefix(ev.Kind, "delta:") {
+				tf := strings.TrimPrefix(strings.TrimPrefix(ev.Kind, "assign:"), "delta:")
+				if i := strings.Index(tf, ":"); i > 0 {
+					tf = tf[:i]
+				}
+				updates[entryKey(e)+"|"+tf] = append(updates[entryKey(e)+"|"+tf], ev)
+			}
 			if strings.HasPrefix(ev.Kind, "assign:") {
 				tf := strings.TrimPrefix(ev.Kind, "assign:")
 				v := ev.Args[0]
@@ -507,6 +516,10 @@ func (cx *Ctx) c12Validators(r *Report) {
 					s.c = v.Name
 				} else if strings.HasPrefix(v.LooseString(), "msg.") {
 					s.msg = v.LooseString()
+				} else if vs := v.LooseString(); vs == "math.ZeroInt()" || vs == "math.LegacyZeroDec()" {
+					// a stored zero (checked below: only if no later update of the same field follows it)
+					s.c = "zero"
+					s.zeroEv = ev
 				}
 				values[tf] = append(values[tf], s)
 			}
@@ -538,6 +551,25 @@ func (cx *Ctx) c12Validators(r *Report) {
 				visit(val)
 			}
 		})
+		// drop stored zeros that are overwritten / added to before the record is stored
+		for tf, ss := range values {
+			var keep []stored
+			for _, st := range ss {
+				if st.zeroEv != nil {
+					later := false
+					for _, u := range updates[entryKey(st.e)+"|"+tf] {
+						if u != st.zeroEv && (orderedBefore(st.zeroEv, u) || followedBy(st.zeroEv, u)) {
+							later = true
+						}
+					}
+					if later {
+						continue
+					}
+				}
+				keep = append(keep, st)
+			}
+			values[tf] = keep
+		}
 		seen := map[string]bool{}
 		for _, a := range atoms {
 			tf := a.typ + "." + a.field
@@ -610,6 +642,16 @@ func (cx *Ctx) rejectingAtoms(val *ssa.Function) []rejectAtom {
 			df := fs[0] // nearest deciding branch
 			if len(fs) > 1 && shortCircuit(fs[1], df, b) {
 				continue // conjunctive rejection (A && B): not an atom
+			}
+			if mc, isCall := df.Cond.(*ssa.Call); isCall && !mc.Common().IsInvoke() && len(mc.Common().Args) == 1 {
+				// sign tests of a numeric field: !F.IsPositive() rejects zero, F.IsZero() rejects zero
+				_, name := calleeName(mc.Common())
+				m := name[strings.LastIndex(name, ".")+1:]
+				tn, fn := recordField(mc.Common().Args[0])
+				if tn != "" && ((m == "IsPositive" && !df.Holds) || (m == "IsZero" && df.Holds)) {
+					out = append(out, rejectAtom{tn, fn, "==", "zero", mc.Pos()})
+				}
+				continue
 			}
 			bo, ok := df.Cond.(*ssa.BinOp)
 			if !ok || (bo.Op != token.EQL && bo.Op != token.NEQ) {
